@@ -85,14 +85,12 @@ func (q queueAnchors) inRing(w *World, fn *ssa.Function, p *Path, v *T, assume m
 					return false
 				}
 			}
+			var x *T
+			for _, a := range l.Atom {
+				x = a
+			}
 			return hasCond(p, func(a *T, val bool) bool {
-				switch {
-				case a.Op == "eq" && !val:
-					return (sameTerm(stripConv(a.A[0]), v) && q.isCap(a.A[1])) || (sameTerm(stripConv(a.A[1]), v) && q.isCap(a.A[0]))
-				case a.Op == "lt" && val:
-					return sameTerm(stripConv(a.A[0]), v) && q.isCap(a.A[1])
-				}
-				return false
+				return (a.Op == "eq" && !val && q.wrapTest(a, x)) || (a.Op == "lt" && val && q.wrapTest(a, x))
 			})
 		}
 		return false
@@ -145,6 +143,32 @@ func (q queueAnchors) inRing(w *World, fn *ssa.Function, p *Path, v *T, assume m
 	return false
 }
 
+// wrapTest: the comparison a (eq or lt) is between x + 1 and the capacity, in
+// any arrangement: x+1 == size, x == size-1, x+1 < size, x < size-1.
+func (q queueAnchors) wrapTest(a *T, x *T) bool {
+	if (a.Op != "eq" && a.Op != "lt") || len(a.A) != 2 {
+		return false
+	}
+	l := linearOf(&T{Op: "sub", A: []*T{a.A[0], a.A[1]}})
+	if len(l.Coef) != 2 || (l.Const != 1 && l.Const != -1) {
+		return false
+	}
+	sg := l.Const
+	if a.Op == "lt" && sg != 1 {
+		return false
+	}
+	okX, okCap := false, false
+	for k, at := range l.Atom {
+		switch {
+		case sameTerm(at, x) && l.Coef[k] == sg:
+			okX = true
+		case q.isCap(at) && l.Coef[k] == -sg:
+			okCap = true
+		}
+	}
+	return okX && okCap
+}
+
 // ringSucc: on path p, is v the ring successor of x — (x+1) % size, or the
 // branch form: 0 where x+1 == size, x+1 where it is not?
 func (q queueAnchors) ringSucc(p *Path, x, v *T) bool {
@@ -166,13 +190,7 @@ func (q queueAnchors) ringSucc(p *Path, x, v *T) bool {
 	}
 	wraps := func(want bool) bool {
 		return hasCond(p, func(a *T, val bool) bool {
-			if a.Op == "eq" && val == want {
-				return (plusOne(a.A[0]) && q.isCap(a.A[1])) || (plusOne(a.A[1]) && q.isCap(a.A[0]))
-			}
-			if a.Op == "lt" && val == !want {
-				return plusOne(a.A[0]) && q.isCap(a.A[1])
-			}
-			return false
+			return (a.Op == "eq" && val == want && q.wrapTest(a, x)) || (a.Op == "lt" && val == !want && q.wrapTest(a, x))
 		})
 	}
 	if v.IsConstVal(0) {
